@@ -181,6 +181,13 @@ func VerifC19PointFidelity(v *vrt.T) {
 		v.AssertKnown(err == nil, "the point is sent to the UDF", g.badUTF8(), "C19-udf-non-utf8-string")
 		sent = append(sent, p)
 	}
+	// Stop() first announces the shutdown (closes s.stopping) and then closes the UDF's
+	// input and waits for the reader to drain: responses that arrive in between (a UDF that
+	// flushes when its input closes) are still delivered.
+	stopping := v.Choose("responses arrive while the server is stopping", 2) == 1
+	if stopping {
+		close(s.stopping)
+	}
 	verifEchoAll(v, s, out)
 	got := verifCollect(s)
 	v.Assert(len(got) == len(sent), "as many points come back as were sent")
@@ -198,7 +205,9 @@ func VerifC19PointFidelity(v *vrt.T) {
 		v.Assert(q.Time().Equal(p.Time()), "same time")
 	}
 	v.Observe("points", len(got), got[0].(edge.PointMessage).Time(), string(got[0].(edge.PointMessage).GroupID()))
-	close(s.stopping)
+	if !stopping {
+		close(s.stopping)
+	}
 	v.Reach("end")
 }
 
